@@ -38,7 +38,13 @@ mod verif_kani_order {
         assert!(pstr.order_category(&heap) == Some(TermOrderCategory::Compound));
         assert!(fix.order_category(&heap) == Some(TermOrderCategory::Integer));
         assert!(flt.order_category(&heap) == Some(TermOrderCategory::FloatingPoint));
-        // atoms: arity 0 is an atom, anything else a compound
+    }
+
+    // atoms: arity 0 is an atom, anything else a compound
+    #[kani::proof]
+    #[kani::unwind(9)]
+    fn order_category_of_atom_cells() {
+        let heap = crate::machine::heap::Heap::new();
         let idx: u64 = kani::any();
         kani::assume(idx < (1u64 << 49));
         let arity: u8 = kani::any();
@@ -63,5 +69,5 @@ mod verif_kani_order {
     }
 }
 '''},
-    "harnesses": {"term_order_category_chain": {}, "order_category_of_tagged_cells": {}, "order_category_of_str_cells": {}},
+    "harnesses": {"term_order_category_chain": {}, "order_category_of_tagged_cells": {}, "order_category_of_atom_cells": {}, "order_category_of_str_cells": {}},
 }
